@@ -54,6 +54,11 @@ def _simple(e):
     return isinstance(e, (ast.Constant, ast.Name)) or (isinstance(e, ast.Attribute) and _simple(e.value))
 
 
+def _literal_row(v):
+    """a list / tuple of constants used as a cell of a literal table"""
+    return isinstance(v, (ast.Tuple, ast.List)) and all(isinstance(e, ast.Constant) for e in v.elts)
+
+
 def _pairs_unrollable(st):
     """for a, b in ((x1, y1), (x2, y2), ...): a literal table of simple expressions"""
     if not (isinstance(st, ast.For) and isinstance(st.target, ast.Tuple) and not st.orelse
@@ -62,7 +67,7 @@ def _pairs_unrollable(st):
     it = st.iter
     if not (isinstance(it, (ast.Tuple, ast.List)) and 1 <= len(it.elts) <= 24):
         return False
-    if not all(isinstance(e, (ast.Tuple, ast.List)) and len(e.elts) == len(st.target.elts) and all(_simple(v) for v in e.elts) for e in it.elts):
+    if not all(isinstance(e, (ast.Tuple, ast.List)) and len(e.elts) == len(st.target.elts) and all(_simple(v) or _literal_row(v) for v in e.elts) for e in it.elts):
         return False
     names = set(t.id for t in st.target.elts)
     for n in ast.walk(ast.Module(body=st.body, type_ignores=[])):
